@@ -10,6 +10,14 @@ EXTRA = {  # checks known (from probes) to be the natural catchers besides the s
     "C08-r2A": ["C10", "C09"], "C09-r2B": ["C10"], "C13-r2B": ["C09"], "C18-r2B": ["C16"], "C14-r2B": ["C15"],
 }
 
+def meta_own_missed(sid):
+    """True when the last evaluation did not catch the seed with the check of its own property."""
+    try:
+        m = json.load(open("%s/seeded/%s/meta.json" % (V, sid)))
+        return m["property"] not in (m.get("detected_by") or [])
+    except Exception:
+        return True
+
 def seeds():
     out = []
     for inc, tag in (("_incoming", "mut"), ("_incoming2", "r2"), ("_incoming3", "r3"), ("_incoming4", "r4")):
@@ -28,9 +36,10 @@ def seeds():
                     prev += list(h.get("detected_by") or [])
             except Exception:
                 prev = []
-            for c in EXTRA.get(sid, []) + prev:
-                if c not in checks and len(checks) < 4:
-                    checks.append(c)
+            if not os.environ.get("OWN_ONLY") or meta_own_missed(sid):
+                for c in EXTRA.get(sid, []) + prev:
+                    if c not in checks and len(checks) < 4:
+                        checks.append(c)
             out.append((sid, prop, d, demo, ",".join(checks)))
     return out
 
